@@ -269,6 +269,13 @@ func (*Ufs) FidDestroy(sfid *SrvFid) {
 	}
 }
 
+// rooted returns the host path of name taken relative to ufs.Root.
+// Cleaning the name as a rooted path first keeps ".." elements from
+// climbing above the exported root: ".." at the root stays at the root.
+func (ufs *Ufs) rooted(name string) string {
+	return filepath.Join(ufs.Root, filepath.Join("/", name))
+}
+
 func (ufs *Ufs) Attach(req *SrvReq) {
 	if req.Afid != nil {
 		req.RespondError(Enoauth)
@@ -280,7 +287,7 @@ func (ufs *Ufs) Attach(req *SrvReq) {
 	// You can think of the ufs.Root as a 'chroot' of a sort.
 	// clients attach are not allowed to go outside the
 	// directory represented by ufs.Root
-	fid.path = filepath.Join(ufs.Root, tc.Aname)
+	fid.path = ufs.rooted(tc.Aname)
 
 	req.Fid.Aux = fid
 	err := fid.stat()
